@@ -17,7 +17,9 @@ impl Channel {
 //@fn vls-core/src/channel.rs :: impl Channel :: get_node mode=trusted
 //@end
 
+    // assumption on chain data: block heights stay far below 2^32
 //@fn vls-core/src/channel.rs :: impl Channel :: get_chain_state mode=trusted
+    ensures height_sane(r),
 //@end
 
     // LDK key derivation / transaction builders: uninterpreted functions of the channel's static data and the arguments
